@@ -9,7 +9,7 @@ Theorem C18_part_history_restore :
            (reclaim : bool) (o0 : list str) (os : list (list str)) (getfault : option N) 
            (clk1 : N),
          parts_ok parts ->
-         Forall pev_ok evs ->
+         Forall (pev_ok dbn) evs ->
          NoDup o0 ->
          Forall (NoDup (A:=str)) os ->
          getfault = None \/ (1 <= retry)%nat ->
@@ -30,7 +30,7 @@ Print Assumptions C18_part_history_restore.
 Theorem C18_part_history_inv :
   forall (retry : nat) (parts : list (str * N)) (dbn : str) (clk0 : N) (evs : list pev),
          parts_ok parts ->
-         Forall pev_ok evs -> PJ parts dbn (fold_left (prun retry parts dbn) evs ([], stub0, clk0)).
+         Forall (pev_ok dbn) evs -> PJ parts dbn (fold_left (prun retry parts dbn) evs ([], stub0, clk0)).
 Proof. exact part_history_inv. Qed.
 Print Assumptions C18_part_history_inv.
 
@@ -187,7 +187,7 @@ Print Assumptions C18_part_get_fault_once_retried.
 
 (* non-vacuity *)
 Theorem C18_hyps_satisfiable :
-  Forall pev_ok ex_evs.
+  Forall (pev_ok "d") ex_evs.
 Proof. exact ex_evs_ok. Qed.
 Print Assumptions C18_hyps_satisfiable.
 
@@ -245,8 +245,8 @@ Theorem C18_metadata_not_restored_two_dbs :
 Proof. exact metadata_not_restored_two_dbs. Qed.
 Print Assumptions C18_metadata_not_restored_two_dbs.
 
-(* REFUTED: the partition listing uses the prefix '<prefix>/<db>' without a trailing slash: database d1 also lists the objects of d10 *)
-Theorem C18_part_prefix_collision_refuted :
+(* the repaired listing: database d1 loads although d10 has a partition d1 lacks *)
+Theorem C18_part_prefix_no_collision_example :
   let d1 :=
            {|
              d_map :=
@@ -268,8 +268,25 @@ Theorem C18_part_prefix_collision_refuted :
          let parts := [("a", 0); ("b", 5)] in
          let s1 := fst (fst (fst (fst (part_snapshot 2 parts d1 "d1" ["a"] true stub0 10 [["a"]])))) in
          let s2 := fst (fst (fst (fst (part_snapshot 2 parts d10 "d10" ["b"] true s1 20 [["b"]])))) in
+         map fst (st_objs s2) = ["nun-db-base/d1/0.nun"; "nun-db-base/d10/5.nun"] /\
          snd (part_read_db 2 s1 "d1" 30) =
          PLoaded [("a", {| v_val := "1"; v_ver := 1; v_opp := 30; v_st := VOk; v_vaddr := 0; v_kaddr := 0 |})]
-           31 /\ snd (part_read_db 2 s2 "d1" 30) = PFail.
-Proof. exact part_prefix_collision_refuted. Qed.
-Print Assumptions C18_part_prefix_collision_refuted.
+           31 /\
+         snd (part_read_db 2 s2 "d1" 30) =
+         PLoaded [("a", {| v_val := "1"; v_ver := 1; v_opp := 30; v_st := VOk; v_vaddr := 0; v_kaddr := 0 |})]
+           31 /\
+         snd (part_read_db 2 s2 "d10" 30) =
+         PLoaded [("b", {| v_val := "2"; v_ver := 1; v_opp := 30; v_st := VOk; v_vaddr := 5; v_kaddr := 0 |})]
+           31.
+Proof. exact part_prefix_no_collision_example. Qed.
+Print Assumptions C18_part_prefix_no_collision_example.
+
+(* objects of other databases (names not under '<prefix>/<db>/') do not influence what a database loads *)
+Theorem C18_part_read_db_other_dbs :
+  forall (retry : nat) (s1 s2 : stub) (dbn : str) (clk : N),
+         gtol retry s1 ->
+         gtol retry s2 ->
+         db_objs dbn (st_objs s1) = db_objs dbn (st_objs s2) ->
+         snd (part_read_db retry s1 dbn clk) = snd (part_read_db retry s2 dbn clk).
+Proof. exact part_read_db_other_dbs. Qed.
+Print Assumptions C18_part_read_db_other_dbs.
